@@ -1123,3 +1123,83 @@ def fault_variants(lines, maxk):
             v += ["destroy %d" % s for s in range(4)] + ["edestroy %d" % s for s in range(4)]
             out.append(v)
     return out
+
+
+# ---------------------------------------------------------------- read-only sharing (C19)
+def gen_shared(L, K, rng, nthreads=4):
+    """build one or two vectors through an arbitrary history (every block on its own pages),
+    write-protect the vector objects, their data blocks and address tables, then run the whole
+    catalogue of const operations - single threaded and from several threads"""
+    g = ScriptGen(L, K, rng)
+    g.lines.append("pagemode 1")
+    g.op_mkvec(0)
+    for _ in range(rng.randrange(2, 12)):
+        r = rng.random()
+        if r < 0.6:
+            if not g.op_emplace(0):
+                g.op_reserve(0, True)
+        elif r < 0.75:
+            g.op_erase(0)
+        elif r < 0.9:
+            g.op_reserve(0)
+        else:
+            g.op_popback(0)
+    # the second vector: a copy, or a copy that was then changed, or an unrelated one
+    how = rng.choice(["copy", "copy-changed", "other"])
+    g.stat("shared-second-" + how)
+    if how == "other":
+        g.op_mkvec(1)
+        for _ in range(rng.randrange(0, 4)):
+            g.op_emplace(1)
+    else:
+        v = g.slots[0].clone()
+        v.aid = v.aid + 100 if K[4] else v.aid
+        g.slots[1] = v
+        g.lines.append("copyctor 1 0")
+        if how == "copy-changed":
+            if not g.op_popback(1):
+                g.op_reserve(1, True)
+                g.op_emplace(1)
+    for s in (0, 1):
+        g.lines.append("protect %d" % s)
+    for (s, t) in ((0, 1), (1, 0), (0, 0)):
+        g.lines.append("constops %d %d" % (s, t))
+        g.stat("constops")
+    g.lines.append("threads 0 1 %d" % nthreads)
+    g.lines.append("threads 1 1 %d" % nthreads)
+    g.stat("threads")
+    for s in (0, 1):
+        g.lines.append("unprotect %d" % s)
+    # ... and the vectors are still ordinary vectors afterwards
+    g.op_emplace(0) or g.op_popback(0)
+    return g.finish(), g.stats
+
+
+def gen_fault_moved_from(L, K, rng):
+    """allocation failure while assigning INTO a moved-from vector / element (the target owns
+    nothing, so every assignment path has to allocate)"""
+    out = []
+    for kind in ("vec-copy", "vec-move", "elem-copy", "elem-move"):
+        for k in range(3 if has_varying(L) else 2):
+            g = ScriptGen(L, K, rng)
+            g.op_mkvec(0, cap=3, aid=1)
+            g.op_emplace(0)
+            g.op_emplace(0)
+            if kind.startswith("vec"):
+                g.lines.append("movector 1 0")          # 0 is moved-from now
+                fixed = g.slots[0].fixed
+                g.op_mkvec(2, cap=2, fixed=fixed, aid=2)
+                g.op_emplace(2)
+                g.lines.append("failat %d" % k)
+                g.lines.append(("copyassign" if kind == "vec-copy" else "moveassign") + " 0 2")
+            else:
+                if not g.slots[0].elems:
+                    continue
+                g.lines.append("efromref 0 0 0 0 1")
+                g.lines.append("emove 1 0")             # element 0 is moved-from now
+                g.lines.append("efromref 2 0 %d 0 2" % (len(g.slots[0].elems) - 1))
+                g.lines.append("failat %d" % k)
+                g.lines.append(("ecopyassign" if kind == "elem-copy" else "emoveassign") + " 0 2")
+            lines = g.lines + ["destroy %d" % s for s in range(4)] + ["edestroy %d" % s for s in range(4)]
+            out.append(lines)
+    return out
